@@ -11,7 +11,8 @@ import vlib
 PID = "C13"
 
 
-CONN_MODES = ["s", "x", "y", "sx", "xs", "ys", "xy", "ss", "yx"]
+CONN_MODES = ["s", "x", "y", "sx", "xs", "ys", "xy", "ss", "yx",
+              "1", "2", "3", "4", "n", "o", "1s", "2x", "o3", "n4", "s2", "y1", "4o"]
 
 
 def gen_scenario(rnd, sid, ndev, nsteps):
@@ -27,7 +28,7 @@ def gen_scenario(rnd, sid, ndev, nsteps):
         if rnd.random() < 0.35:
             for _ in range(rnd.randrange(1, 4)):
                 steps.append("%d@%s%s%d" % (d, rnd.choice("abc"), rnd.choice("RRREEre"), rnd.randrange(7)))
-    removed, reconnects = None, 0
+    removed, reconnects, floods = None, 0, 0
     for k in range(nsteps):
         d = rnd.randrange(ndev)
         if d == removed:
@@ -55,10 +56,24 @@ def gen_scenario(rnd, sid, ndev, nsteps):
                 steps.append("%dU1" % d)
             else:
                 steps.append("%dU0" % d)
-        elif x < 0.99:
+        elif x < 0.985:
             if reconnects < 3:          # outage: the connection goes away, the device reconnects
                 reconnects += 1
                 steps.append("%dX" % d)
+        elif x < 0.993:
+            if floods < 2:
+                # the reader's receive side stalls while a large request is under way (the client's
+                # writer blocks), 7 / 20 / 100 keep-alives pile up, reports and events follow, and
+                # only then does the reader read again (G): they must have been published by then
+                floods += 1
+                steps.append("%dF%d" % (d, rnd.randrange(3)))
+                for _ in range(rnd.randrange(2, 7)):
+                    kind = rnd.choice("RRREEreK")
+                    v = rnd.randrange(7)
+                    if kind == "E" and v == 4:
+                        v = 5   # (a mid-stream connection success waits for its SetReaderConfig exchange)
+                    steps.append("%d%s%d" % (d, kind, v))
+                steps.append("%dG" % d)
         elif ndev >= 2 and removed is None and k > nsteps // 3:
             removed = d                 # one device is removed while the others go on
             steps.append("%dZ" % d)
@@ -78,7 +93,7 @@ def expected_tokens(scn):
             if st[1] == "+" and int(st[0]) == d:
                 modes = st[2:]
         nconn[d] = len(modes) + 1
-        exp += ["%d:REN:%d" % (d, 2000 + 100 * d + n) for n in range(nconn[d])]
+        exp += ["%d:%s:%d" % (d, "RO" if n < len(modes) and modes[n] == "o" else "REN", 2000 + 100 * d + n) for n in range(nconn[d])]
     removed = set()
     for i, st in enumerate(f[3:]):
         d = int(st[0])
@@ -102,6 +117,10 @@ def judge(scn, line):
     bad = []
     if line.startswith("!") or " | " not in line:
         return [("harness:" + line.split()[0][:30], "scenario did not run: " + line[:200])]
+    m = re.search(r"heldback=(\d+)", line)
+    if m and m.group(1) != "0":
+        bad.append(("held-back", "%s report(s)/event(s) sent behind a backlog of unacknowledged keep-alives (reader not reading, "
+                    "client's writer blocked) were not published within 1.5 s, before the reader read again" % m.group(1)))
     toks = line.split(" | ")[0].split()[1:]
     exp = collections.Counter(expected_tokens(scn))
     where = {}      # content index -> (device, resource) it must appear under
@@ -115,8 +134,8 @@ def judge(scn, line):
         for i in [k for k in where if int(k) >= 2000]:
             del where[i]
         for ds in filter(None, m.group(1).split(",")):
-            d, i = ds.split(":")
-            where[i] = (d, "REN")
+            d, i, r = ds.split(":")
+            where[i] = (d, r)
     seen = collections.Counter()
     for t in toks:
         if t.startswith("!unmatched"):
@@ -177,6 +196,8 @@ def run(tier, seed, replay=None):
                 "4 3 15 0+ys 1+xy 2+sx 0E1 1R3 2R5 0T4 1T1 2T2 0R3 1E6 2E1 0K 1K 2C0 0R1 1R2 2R6",
                 "5 2 18 0@aR1 0@aE0 0@bR2 0@cE3 1@ar0 1@aR3 1@cR4 0R5 1R6 0E1 1E2",
                 "6 3 19 0R1 0r0 0R2 0U0 0R3 0E1 1R1 1r1 1U1 1R2 1E0 2R1 2r2 2X 2R2 2E3 1Z 0R4 2R5 0X 0R6 0e0 0U0 0E2",
+                "9 3 20 0+1 1+2o 2+n4 0R1 1R2 2E0 0E1 1E3 2R4",
+                "10 2 21 0R1 0F0 0R2 0E1 0K 0R3 0G 0R4 1R1 1F2 1E2 1R5 1G 1E3 0F1 0R6 0e0 0E5 0G 0R0",
                 "2 2 13 0R1 1M 0C0 0R2 1L 1R3 0E0 1R4 0K 1E1",
                 "1 3 12 " + " ".join("%d%s%d" % (d, k, v) for v in range(7) for k in "RE" for d in range(3))]
         n = 1500 if thorough else 300
@@ -184,7 +205,7 @@ def run(tier, seed, replay=None):
             # the deadlines of the service itself (20 s): a command through the driver whose reply comes
             # in two pieces 21 s apart, and a SetReaderConfig that is never answered
             scns += ["7 2 16 0R1 1R1 0T9 1E0 0R2 0E3 1R4", "8 2 17 0+w 0R1 1R1 0E1 1E2 0R3"]
-        for sid in range(9, n):
+        for sid in range(11, n):
             ndev = rnd.choice([2, 2, 3, 3, 1])
             nsteps = rnd.choice([8, 20, 40, 80] + ([200, 400] if thorough else []))
             scn = gen_scenario(rnd, sid, ndev, nsteps)
@@ -291,7 +312,7 @@ def run(tier, seed, replay=None):
     def model_differs(g, o):
         # connection events are judged against what the readers really sent (judge); the comparison
         # with the model is about the messages of the script
-        conn = re.compile(r"^\d:REN:2\d\d\d$")
+        conn = re.compile(r"^\d:(REN|RO):2\d\d\d$")
         ot = sorted(t for t in o.split(" | ")[0].split()[1:] if not conn.match(t))
         gt = sorted(t for t in g.split(" | ")[0].split()[1:] if not t.startswith("!badgen") and not conn.match(t))
         return gt != ot or "expected_ok=1" not in o or "pending=0" not in o
